@@ -68,7 +68,10 @@ def fingerprint_result(text, flag, entry=0):
     try:
         if entry == 0:
             from calmjs.parse.parsers.es5 import parse
-            t = parse(text, with_comments=flag)
+            # (the three ways of writing the call)
+            k = len(text) % 3
+            t = parse(text, with_comments=flag) if k == 0 else parse(text, flag) if k == 1 else \
+                (parse(text, with_comments=True) if flag else parse(text))
         else:
             from calmjs.parse import es5
             if entry == 1:
@@ -77,7 +80,18 @@ def fingerprint_result(text, flag, entry=0):
                 f = es5.pretty_print if entry == 2 else es5.minify_print
                 f(text, with_comments=True) if flag else f(text)
                 return 'printed'
-        return 'tree:%016x' % h64(repr(vtree.fingerprint(t)))
+        fp = 'tree:%016x' % h64(repr(vtree.fingerprint(t)))
+        # the tree is the caller's from here on (read() labels it with a file name, a transformation edits it):
+        # what a caller does to one result is no part of any later result
+        try:
+            t.sourcepath = 'edited/by/the/caller.js'
+            ch = t.children()
+            if isinstance(ch, list):
+                del ch[1:]
+            t.lexpos = t.lineno = t.colno = -7
+        except Exception:
+            pass
+        return fp
     except Exception as e:
         return 'printed' if entry >= 2 else 'exc:%s:%s' % (type(e).__name__, str(e))
 
